@@ -64,6 +64,9 @@ class DstWorld(World):
         if c["shape"] == "existing":
             with open(core.DST_FILE, "wb") as f:
                 f.write(b"\xee" * (c["size"] + 3))
+        elif c["shape"] == "dir_existing":
+            with open(core.dest_path_resolved(c), "wb") as f:
+                f.write(b"\xdd" * (c["size"] + 3))
         st.D = core.make_dest(c, vfs=FaultyFilestore())
         self.init_model(st)
         return st
